@@ -188,6 +188,24 @@ func runPrio1Bubble(sc scenario) result {
 	} else {
 		probe.base = priority.RateDivider
 	}
+	// leading operations with code 6: items written before the discipline is created (writers block as needed)
+	next := uint(1)
+	first := 0
+	for first < m && sc.int(pos+1+first) == 6 {
+		in := getChan(int(sc.i64(pos + 2 + first)))
+		v := next
+		next++
+		in.pending.Add(1)
+		go func() {
+			in.ch <- v
+			putMu.Lock()
+			*in.done++
+			putMu.Unlock()
+			in.pending.Done()
+		}()
+		synctest.Wait()
+		first += 4
+	}
 	output := make(chan priority.Prioritized[uint], ocap)
 	feedback := make(chan uint, ocap)
 	ctx, cancel := context.WithCancel(context.Background())
@@ -203,7 +221,6 @@ func runPrio1Bubble(sc scenario) result {
 	probe.takeSegment()
 	res := okInts(0)
 	held := []uint{}
-	next := uint(1)
 	var pendingCmds sync.WaitGroup
 	pend := 0
 	var pendMu sync.Mutex
@@ -237,7 +254,7 @@ func runPrio1Bubble(sc scenario) result {
 	}
 	stopReturned, gracefulReturned := false, false
 	lenAtStop := -1
-	for i := 0; i < m; i += 4 {
+	for i := first; i < m; i += 4 {
 		code, a, b, stl := sc.int(pos+1+i), sc.i64(pos+2+i), sc.i64(pos+3+i), sc.int(pos+4+i) != 0
 		tp, tx := uint(0), uint(0)
 		switch code {
